@@ -6,6 +6,7 @@ Tables (2-D): rows separated by `|`, values by `,`; an empty row is `e`.
 -/
 import SkVerif.Model.C14Interp
 import SkVerif.Model.C14Feat
+import SkVerif.Model.C14Slope
 import SkVerif.Drv.Parse
 namespace SkVerif.Drv.C14
 open SkVerif SkVerif.C14 SkVerif.Drv
@@ -121,6 +122,15 @@ def handle (toks : List String) : String :=
     | some m, some v, some mv, some zs =>
       showE (fun cols => ";".intercalate (cols.map showORatList)) (zs.mapM (impute m v mv))
     | _, _, _, _ => "bad-op"
+  | ["slopet", k, x] =>
+    -- per segment `sign(r), 2w/r` (`0,0` when r = 0, where the code returns gradient 0)
+    match parseIntParam? k, parsePanel? x with
+    | some k, some x =>
+      showE (fun p => if p.isEmpty then "_" else "|".intercalate (p.map (fun inst => ";".intercalate (inst.map (fun cell =>
+        if cell.isEmpty then "e" else ",".intercalate (cell.map (fun (wr : Rat × Rat) =>
+          if wr.2 = 0 then "0,0" else s!"{if wr.2 > 0 then "1" else "-1"},{showRat (2 * wr.1 / wr.2)}")))))))
+        (slopeTransform k x)
+    | _, _ => "bad-op"
   | ["rife", feats, ivs, x] =>
     match (feats.splitOn ",").mapM parseFeat?, parsePairs? ivs, parsePanel? x with
     | some fs, some ivs, some x => showE showOTable (rife fs ivs x)
